@@ -61,6 +61,7 @@ pub fn ptr_add(p: usize, n: usize) -> (r: usize)
     requires p + n <= usize::MAX,   // @ob C01,C09,C19 ptr_add.no_wrap
     ensures r == p + n
 { p + n }
+pub fn umax_exec(a: usize, b: usize) -> (r: usize) ensures r == umax(a, b) { if a >= b { a } else { b } }
 pub fn ptr_is_null(p: usize) -> (r: bool) ensures r == (p == 0) { p == 0 }
 pub fn nonnull_new(p: usize) -> (r: Option<usize>)
     ensures r == (if p == 0 { None::<usize> } else { Some(p) })
@@ -269,3 +270,8 @@ pub broadcast proof fn lemma_aligned_consts()
     assert(4096usize & 15usize == 0) by (bit_vector);
     assert(448usize & 15usize == 0) by (bit_vector);
 }
+
+pub assume_specification<T>[ bool::then_some ](b: bool, t: T) -> (r: Option<T>)
+    ensures r == (if b { Some(t) } else { None::<T> });
+pub assume_specification<T>[ Option::<Option<T>>::flatten ](o: Option<Option<T>>) -> (r: Option<T>)
+    ensures r == (match o { Some(x) => x, None => None::<T> });
